@@ -77,7 +77,7 @@ func (d Driver[I, O]) child() {
 func (d Driver[I, O]) runChunk(self string, prop string, inputs []In[I], lo, hi int, res []childOut[O]) {
 	i := lo
 	for i < hi {
-		cmd := exec.Command(self, prop, "-child")
+		cmd := exec.Command(self, "-child")
 		cmd.Stderr = io.Discard
 		if os.Getenv("VERIF_CHILD_STDERR") != "" {
 			cmd.Stderr = os.Stderr
